@@ -133,6 +133,46 @@ def _a_body(di, iv, up):
     return True
 
 
+LONG = ((300, 0), (1200, 600), (4000, 37))
+LONG_IV = (('M2', True), ('m3', False), ('P5', True), ('octave', False), ('A4', True), ('d5', False))
+_LONG = {}
+
+
+def ob_d(k: int, j: int) -> bool:
+    n = ctx.pick(2, 3)
+    m = ctx.pick(4, 6)
+    assume(0 <= k < n and 0 <= j < m)
+    return _d_body(choose(k, n), choose(j, m))
+
+
+@native
+def _d_body(k, j):
+    from sv.ref import longdoc
+    if k not in _LONG:
+        _LONG[k] = longdoc.long_doc(LONG[k][0], True, LONG[k][1])
+    D = _LONG[k]
+    iname, up = LONG_IV[j]
+    heads = ['**kern', '**text']
+    doc, errs = kp.loads(D.text())
+    check(not errs, 'import errors')
+    E, spellable = expected_transposed(D, iname, up)
+    check(spellable, 'generator: the long score only has naturals, every interval of LONG_IV is spellable')
+    try:
+        t = doc.to_transposed(iname, _dir(up))
+    except Exception as e:
+        check(False, f'score of {LONG[k][0]} data rows: to_transposed({iname!r}, {_dir(up)!r}) raised {type(e).__name__}: {str(e)[:200]}')
+    got = cells.parse_grid(kp.dumps(t, spine_types=heads))
+    exp = E.expected('kern')
+    if got != exp:
+        bad = next((i for i, (g, x) in enumerate(zip(got, exp)) if g != x), min(len(got), len(exp)))
+        check(False, f'score of {LONG[k][0]} data rows, {iname} {_dir(up)}: {len(got)} lines vs {len(exp)} expected; first difference at line {bad}: '
+                     f'{got[bad] if bad < len(got) else None} vs {exp[bad] if bad < len(exp) else None}')
+    back = t.to_transposed(iname, _dir(not up))
+    src = cells.parse_grid(kp.dumps(back, spine_types=heads))
+    check(src == D.expected('kern'), f'score of {LONG[k][0]} data rows: {iname} {_dir(up)} then {_dir(not up)} does not restore the source export')
+    return True
+
+
 CLASSES = ('core', 'accidentals', 'chords', 'source')
 
 
@@ -219,6 +259,11 @@ OBLIGATIONS = [
        witnesses=[{'d': 0, 'iv': 5, 'up': True}], min_confirmed=200, enumerated='document, interval (40), direction',
        bounds={'quick': '3 documents (two spines + text, three spines with split/join + dynam, 7 naturals) x 40 intervals x 2 directions', 'thorough': 'same'},
        describe=_desc),
+    Ob(id='C15.d', fn=ob_d, title='long scores: every note of a score of hundreds to thousands of lines is transposed, nothing else changes, round trip',
+       shard_of=lambda k, j: k + 3 * j, shards={'quick': 8, 'thorough': 16}, budget_s={'quick': 150, 'thorough': 900}, native_body=True,
+       witnesses=[{'k': 0, 'j': 0}], min_confirmed=8, enumerated='score length, interval and direction',
+       bounds={'quick': 'scores of 300 and 1200 data rows (naturals C3..b5, rests, dotted / decorated notes, comments, a text spine, one split + join) x {M2 up, m3 down, P5 up, octave down}',
+               'thorough': '+ 4000 data rows, + {A4 up, d5 down}'}),
     Ob(id='C15.b', fn=ob_b, title='tracked classes: explicit accidentals, chord notes, source document after the call',
        shard_of=lambda cls, iv, up: iv, shards={'quick': 4, 'thorough': 4}, budget_s={'quick': 120, 'thorough': 600},
        witnesses=[{'cls': 0, 'iv': 5, 'up': True}], min_confirmed=60, enumerated='class, interval, direction',
